@@ -3,6 +3,7 @@
   Property theorems only (pybind emitter IR, `Model/Pybind.lean`).
 -/
 import WrapModel.Model.Pybind
+import WrapModel.Model.Matlab.Cpp
 
 namespace WrapModel.Props.C15
 open WrapModel WrapModel.Inst WrapModel.Pybind
@@ -60,5 +61,20 @@ theorem C15_locality (cfg : Cfg) (p : List String) (mv : String) (xs ys : List I
   | cons d r ih =>
     simp only [List.cons_append]
     cases d <;> simp [emitInner, ih, List.append_assoc, String.append_assoc]
+
+/-! ### MATLAB side -/
+
+/-- MATLAB generator: wrapping an IGNORED class does nothing at all — no classdef text, no id allocated (so every later call
+    site keeps the id it has when the declaration is deleted), no enumeration folder pushed, no include recorded: the state of
+    the generator after the class is the state before it.  (The key is the qualified name without a leading `::`, for a
+    global class the bare name — fix 0f2adfb.)  That the whole toolbox with the class ignored equals the toolbox with its
+    declaration deleted is decided per run by correspondence and the ignore = delete oracle. -/
+theorem C15_matlab_ignored_class_no_effect (cfg : Matlab.MCfg) (c : IClass) (ns : String) (s : Matlab.St)
+    (h : cfg.ignore.contains (joinWith "::" (c.nsPath.drop 1 ++ [c.name])) = true) :
+    (Matlab.wrapInstantiatedClass cfg c ns).run s = .ok (none, s) := by
+  have h' : joinWith "::" (c.nsPath.tail ++ [c.name]) ∈ cfg.ignore := by simpa using h
+  unfold Matlab.wrapInstantiatedClass
+  simp [h']
+  rfl
 
 end WrapModel.Props.C15
